@@ -1,2 +1,1 @@
-for p in ALL:
-    NA[p] = "check under construction in this round; see DESIGN.md section 4 for the planned rules"
+# every property is claimed (clause-level limits are stated in level_note and DESIGN.md section 9)
